@@ -325,6 +325,8 @@ class Interp:
                     raise Refuse('++ of a non-constant')
                 self.store(lv, const_bits(c + (1 if e['op'] == '++' else -1)), env)
                 return const_bits(c if e.get('post') else c + (1 if e['op'] == '++' else -1))
+            if e['op'] == '*' and ir.strip(e['e'])['k'] == 'this':
+                return None         # `return *this;` of an assignment operator: the object itself, not a bit value
             raise Refuse('unary ' + e['op'])
         if k == 'bin':
             op = e['op']
@@ -423,6 +425,9 @@ class Interp:
             for p, a in zip(g.params, e.get('args', [])):
                 if '&' in (p.get('ty') or '') and 'const' not in (p.get('ty') or ''):
                     cenv[p['id']] = ['ref', self.lv(a, fn, this, env), None]
+                elif '&' in (p.get('ty') or '') and ir.strip(a)['k'] in ('var', 'mem', 'idx') and \
+                        isinstance(self.load(self.lv(a, fn, this, env), env), (dict, list)):
+                    cenv[p['id']] = ['ref', self.lv(a, fn, this, env), None]       # an object handed on by const reference
                 else:
                     w = width_of(p['ty']) or W
                     v = self.ev(a, fn, this, env)
